@@ -76,6 +76,29 @@ def run(ctx):
             items.append(descs.corr_item(text, layout=layout, cfg=cfg, pq=True if entry == 'desc' else None))
         elif entry == 'tract' and i % 3 == 0:
             items.append(descs.tract_corr_item(text, cfg=cfg, pq=True))
+    # OCR-garbled Twp/Rge numbers under ocr_scrub: every character the OCR pattern admits into a number, not only those the
+    # substitution table repairs
+    OCR_CHARS = 'SsOoIiLl]|0159'
+    for i in range(ctx.budget(150, 5000)):
+        r = rng.fork(700000 + i)
+        def garble(n):
+            ds = list(str(n))
+            for k in range(len(ds)):
+                if r.chance(1, 2):
+                    ds[k] = r.choice(OCR_CHARS)
+            return ''.join(ds)
+        t, rg = r.choice([154, 7, 100, 15]), r.choice([97, 3, 100, 10])
+        ns, ew = r.choice('NS'), r.choice('EW')
+        tr = r.choice([f'T{garble(t)}{ns}-R{garble(rg)}{ew}', f'Township {garble(t)} {"North" if ns == "N" else "South"}, Range {garble(rg)} '
+                       f'{"West" if ew == "W" else "East"}', f'T{garble(t)}{ns} R{garble(rg)}{ew}', f'{garble(t)}{ns}-{garble(rg)}{ew}'])
+        text = r.choice([tr + ' Sec 14: NE/4', 'NE/4 of Sec 14, ' + tr, tr + '\nSection 1: Lots 1 - 3', tr])
+        cfg = ','.join(x for x in ('ocr_scrub', descs.valid_config(r) or '') if x)
+        entry = r.choice(['desc', 'desc_wait', 'desc'])
+        run_entry(rep, text, cfg, None, entry)
+        rep.count()
+        rep.nontrivial((text, cfg, None, entry))
+        if i % 3 == 0:
+            items.append(descs.corr_item(text, cfg=cfg, pq=True if entry == 'desc' else None))
     # invalid arguments: only the documented exception types
     expect_exc(rep, lambda: pytrs.PLSSDesc(3), (TypeError,), 'PLSSDesc(3)')
     expect_exc(rep, lambda: pytrs.PLSSDesc(None), (TypeError,), 'PLSSDesc(None)')
